@@ -619,7 +619,7 @@ func runCrashCases(ctx *Ctx, prop string, r *rng) ([]Case, [][]string, []Finding
 }
 
 func init() {
-	checks["C15"] = crashCheck("C15", []string{"C15.replace_old_or_new", "C15.commit_objects_before_ref", "C15.commit_branch_old_or_new", "C15.add_blob_before_index", "C15.run_untouched", "C15.rm_keeps_refs", "C15.restoreStaged_keeps_refs", "C15.config_keeps_all", "C15.branchDelete_keeps_others", "C15.init_all_or_nothing"},
+	checks["C15"] = crashCheck("C15", []string{"C15.rename_head_always_names", "C15.switchCreate_head_always_names", "C15.reset_refs_old_or_new", "C15.switch_head_old_or_new", "C15.updateRef_old_or_new", "C15.branchCreate_absent_or_complete", "C15.replace_old_or_new", "C15.commit_objects_before_ref", "C15.commit_branch_old_or_new", "C15.add_blob_before_index", "C15.run_untouched", "C15.rm_keeps_refs", "C15.restoreStaged_keeps_refs", "C15.config_keeps_all", "C15.branchDelete_keeps_others", "C15.init_all_or_nothing"},
 		"scenario corpus (init, add, commit, rm, branch create/rename/delete, switch, switch -c, reset soft/mixed/hard, restore both modes, update-ref, config local/global) plus random reachable states x random modifying commands; the real binary is traced with strace, and for EVERY prefix of its file-system modification sequence (create/truncate, write, mkdir, rename, remove; payloads from the trace) the crash state is rebuilt on a copy of the pre-state and judged: every read-only command still loads it, everything reachable from branches and the staging area is intact, each branch holds its old or its new commit")
 	checks["C16"] = crashCheck("C16", []string{"C15.fault_same_or_error", "C15.fault_no_half_commit", "C15.replace_old_or_new", "C15.commit_objects_before_ref"},
 		"same scenario corpus and random states; a fault-free traced run lists every open/read/readdir/create/write/mkdir/rename/remove call on a repository path; each is then failed in its own run with strace error injection (EIO/ENOSPC/EACCES, addressed by path and per-path ordinal, verified as injected from the trace) and the outcome judged: non-zero exit or a result identical to the fault-free run, no crash, reachable objects intact, no branch advanced to an incomplete commit")
